@@ -1210,6 +1210,18 @@ def fixed_cases():
          "duplicate parameter name in a function type (parameter)"),
         ("fntype-dup-param-nested", "type L = [?fn(q: bool, q: bool) -> bool];\nfn main() { }\n", True, "duplicate parameter name in a function type nested in a list type"),
         ("fntype-distinct-params", "type Cb = fn(x: int, y: int) -> null;\nfn main() { }\n", False, "distinct parameter names"),
+        # function types of another parameter kind (variadic builtins against fixed lists) inside object fields, as
+        # arguments and in joined branches: a diagnostic, never a crash
+        ("fnkind-in-object-let", "fn main() { let _o: { f: fn() -> null } = new { f: println }; }\n", True, "variadic builtin in an object field against a fixed function type"),
+        ("fnkind-in-object-arg", "fn take(o: { f: fn(a: int) -> null }) { } fn main() { take(new { f: print }); }\n", True, "the same as a call argument"),
+        ("fnkind-in-object-join", "fn main() { let x = if true { new { f: println } } else { new { f: fn() { } } }; println(x); }\n", True, "the same in joined branches"),
+        ("fnkind-nested-return", "fn main() { let f: fn() -> fn() -> null = (?println).unwrap; }\n", True, "function type whose RETURN type differs in parameter kind"),
+        # the identifier of a catch block lives in the catch block only
+        ("catch-ident-after", 'fn main() { try { throw("x"); } catch e { println(e.message); } println(e.message); }\n', True, "catch identifier used after the try expression"),
+        ("catch-ident-after-fn", 'fn f() -> str { let r = try { "a" } catch err { err.message }; err.message }\nfn main() { println(f()); }\n', True, "catch identifier used after the try expression (function tail)"),
+        ("catch-ident-shadows", 'fn main() { let e = 42; try { throw("x"); } catch e { println(e.message); } println(e + 1); }\n', False,
+         "a variable of the enclosing block named like the catch identifier: shadowed inside, intact outside"),
+        ("catch-ident-twice", 'fn main() { try { throw("x"); } catch e { println(e.message); } try { throw("y"); } catch e { println(e.line); } }\n', False, "two catch blocks with the same identifier"),
         ("main-missing", "fn f() { }\n", True, "no main"),
         ("main-ok", "fn main() { }\n", False, "empty main"),
         ("empty-match", "fn main() { let y: int = match 1 { }; println(y); }\n", True, "match without arms has no value"),
